@@ -3,7 +3,7 @@ REAL_VS_STUB = {
     "real": ["all of xenium (headers from /repo, compiled from the working tree)", "libstdc++ header code (std::vector, std::sort, std::optional, ...)",
              "thread_local construction/destruction (real pthreads, glibc TLS)", "C++ exceptions (bad_hazard_pointer_alloc)"],
     "simulated": ["thread scheduling (seeded scheduler, one released thread at a time)", "std::atomic loads/stores/RMWs/fences (view-based C++17 memory model)",
-                  "operator new/delete (deterministic arena, no reuse inside a run, quarantine + poison)", "std::mutex / sched_yield (left_right)",
+                  "operator new/delete (deterministic arena; freed blocks stay quarantined and poisoned, or - in half of the runs, reuse_pct - are handed out again LIFO by size: the ABA fault)", "std::mutex / sched_yield (left_right)",
                   "utils::random() (hook H1)", "hardware_pause() (hook H2, scheduler hint)", "compare_exchange_weak spurious failures"],
     "stubbed": ["none of the library is stubbed"],
 }
